@@ -27,7 +27,9 @@ RULE = (
     "reason on fields and enum values, @nonIntrospectable on fields or on the schema, custom directives with arguments and arbitrary "
     "location sets, custom root names) x printing variant (definition order, descriptions as strings or block strings, comments, commas) x "
     "split into base + `extend` pieces of every kind x supply mode (string, file, list of files, directory with .graphql/.sdl files in "
-    "sub-directories). Oracle = round trip: the standard introspection query is normalised and compared with declared + engine built-ins "
+    "sub-directories) x file encoding (utf-8, utf-16, latin-1) x build style (create_engine, Engine(...) then cook(), Engine() then "
+    "cook(...); every SDL is built twice under two schema names) x kind of directive implementation object (class, instance, dataclass "
+    "instance, SimpleNamespace). Oracle = round trip: the standard introspection query is normalised and compared with declared + engine built-ins "
     "(kinds, fields, arguments, full ofType chains, default values parsed back and compared by value, enum values, interfaces, possible "
     "types, input fields, roots, directives; nothing missing, nothing extra), deprecation flags/reasons, includeDeprecated true/false/"
     "omitted, hidden fields absent, __type(name) = types entry for every name and null for fresh names, schema-level @nonIntrospectable "
